@@ -18,7 +18,7 @@ def stmt(k: str, g: str = "", p: str = "", a: str = "none", lay: str = "1") -> D
     return {"k": k, "g": g, "p": p, "a": a, "lay": lay}
 
 
-def call(g): return stmt("call", g)
+def call(g, a="none"): return stmt("call", g, a=a)
 def ref(g): return stmt("ref", g)
 def keep(p, g, a="none", lay="1"): return stmt("keep", g, p, a, lay)
 def load(p): return stmt("load", p=p)
@@ -35,7 +35,8 @@ class Shape(object):
                  tags: Optional[List[str]] = None,
                  root2: Optional[str] = None,
                  untracked: Optional[List[str]] = None,
-                 root_arg: bool = False):
+                 root_arg: bool = False,
+                 defaults: Optional[List[str]] = None):
         self.name = name
         self.root = root
         self.funs = list(stmts.keys())
@@ -58,6 +59,10 @@ class Shape(object):
                         self.param[g] = "xdef"
                     elif self.param[g] == "none":
                         self.param[g] = "x"
+        # functions declared to have a literal default although no site relies on it
+        self.defaults = list(defaults or [])
+        for g in self.defaults:
+            self.param[g] = "xdef"
         # a function with a default also may get explicit values; one without default never
         # is called with "default"
         # entry styles, primary first
@@ -121,12 +126,14 @@ class Shape(object):
         return {"name": self.name, "root": self.root, "funs": self.funs, "stmts": self.stmts,
                 "reads": self.reads, "vtype": self.vtype, "dpath": self.dpath,
                 "root_path": self.root_path, "param": self.param, "real": self.real,
-                "tags": self.tags, "styles": self.styles, "root2": self.root2, "untracked": self.untracked, "root_arg": self.root_arg}
+                "tags": self.tags, "styles": self.styles, "root2": self.root2, "untracked": self.untracked, "root_arg": self.root_arg,
+                "defaults": self.defaults}
 
     @staticmethod
     def from_json(d: Dict[str, Any]) -> "Shape":
         return Shape(d["name"], d["root"], d["stmts"], d["reads"], d["vtype"], d["dpath"],
-                     d["root_path"], d.get("real"), d.get("tags"), d.get("root2"), d.get("untracked"), d.get("root_arg", False))
+                     d["root_path"], d.get("real"), d.get("tags"), d.get("root2"), d.get("untracked"), d.get("root_arg", False),
+                     d.get("defaults"))
 
 
 def class_candidates(shape: "Shape") -> List[str]:
@@ -394,6 +401,29 @@ def illformed_shapes(tier: str = "quick") -> List[Shape]:
                     funs[f] = [nested_eval("t1")]
             funs["t1"] = []
             mk("ne_%s_%d" % (via, depth), names[0], funs, ["nested-eval", "via:" + via, "depth:%d" % depth])
+    return S
+
+
+def callarg_shapes() -> List[Shape]:
+    """plain (non-kept) calls that pass arguments -- literal, computed, or the caller's own parameter
+    handed on -- with kept nodes below them whose value depends on what was passed"""
+    S: List[Shape] = []
+    S.append(Shape(
+        "callargs", "f1",
+        {"f1": [call("f2", "const"), call("f3", "runtime"), call("f8", "const"), keep("/ca/k", "f6")],
+         "f2": [keep("/ca/a", "f4", "pass"), call("f5", "pass")],
+         "f3": [keep("/ca/b", "f4", "pass")],
+         "f4": [], "f5": [keep("/ca/c", "f7", "pass")], "f6": [], "f7": [],
+         "f8": [keep("/ca/d", "f9", "pass")], "f9": []},
+        reads={"f4": ["v1"], "f6": ["v2"]}, vtype={"v1": "int", "v2": "int"},
+        defaults=["f8"], tags=["plain-call-arguments", "parameter-handed-on", "explicit-argument-over-default"]))
+    # the root takes the argument from its caller and hands it on, two levels down
+    S.append(Shape(
+        "callargs_root", "f1",
+        {"f1": [keep("/cr/a", "f2", "pass"), call("f3", "pass"), call("f5", "kw")],
+         "f2": [], "f3": [keep("/cr/b", "f4", "pass")], "f4": [], "f5": [keep("/cr/c", "f6", "pass")], "f6": []},
+        reads={"f2": ["v1"], "f4": ["v2"]}, vtype={"v1": "int", "v2": "int"},
+        root_arg=True, tags=["root-argument", "parameter-handed-on", "plain-call-arguments"]))
     return S
 
 
